@@ -99,6 +99,7 @@ func genC03(c *Ctx) *Plan {
 	}
 	p.P["freeze_us"] = int64(r.pick(0, 0, 100, 2000))
 	p.YieldOff = genYieldOff(r)
+	p.Cfg.AliveDel = r.chance(0.5) // an accepting AliveDelegate: a preemption point if it is ever called without the node lock
 	return p
 }
 
